@@ -144,9 +144,23 @@ def run_impl(case):
                     prepared[n_] = b.Index(-1 if op_[1] == BAD else op_[1])
             except (ValueError, TypeError) as ex_:
                 prepared[n_] = ex_
+    # usage variation (own random stream): a second, independent builder is filled in between — also while scopes of the
+    # first one are open; its registers carry exactly the names they were given
+    sib_rnd = lib.rng_for(case.get("seed", 0), case.get("idx", 0), 1761)
+    sib = csr.Builder(addr_width=8, data_width=dw, granularity=gran) if sib_rnd.random() < 0.3 else None
+    sib_names = []
     for opn, op in enumerate(case["ops"]):
         stats["ops"] += 1
         k = op[0]
+        if sib is not None and sib_rnd.random() < 0.4 and len(sib_names) < 6:
+            nm_ = f"sib{len(sib_names)}"
+            try:
+                sib.add(nm_, csr.Register(csr.Field(csr.action.RW, 1), access="rw"))
+                sib_names.append((nm_,))
+                stats["sibling_adds_with_open_scopes"] = stats.get("sibling_adds_with_open_scopes", 0) + int(bool(scope))
+            except Exception as ex_:
+                fails.append(("C17", f"an independent second builder refuses a plain add(): {type(ex_).__name__}: {str(ex_)[:80]}", len(obs)))
+                sib = None
         if k == "add":
             _, rid, nm, w, off = op
             if rid not in regs:
@@ -253,5 +267,13 @@ def run_impl(case):
     for cm in reversed(stack):
         if cm is not None:
             cm.__exit__(None, None, None)
+    if sib is not None and sib_names:
+        try:
+            got_ = [tuple(n_) for _, n_, _ in sib.as_memory_map().resources()]
+            if sorted(got_) != sorted(sib_names):
+                fails.append(("C17", f"an independent second builder, filled while the first one had scopes open, names its registers {got_}; "
+                                     f"they were added as {sib_names}", len(obs)))
+        except Exception as ex_:
+            fails.append(("C17", f"an independent second builder cannot produce its memory map: {type(ex_).__name__}: {str(ex_)[:80]}", len(obs)))
     lines.append("end")
     return {"lines": lines, "obs": obs, "fails": fails, "stats": stats, "key": "|".join(lines)}
